@@ -80,6 +80,31 @@ pub fn build(tier: Tier) -> CheckDef {
             spaces.push(Box::new(Prefixes { sk, oracle: PrefixCompare::new(true), label: "C18 slice parser" }));
         }
     }
+    // the rotated objects under machines with processor-specific ABI deviations: behaviour on a cut
+    // must not depend on e_machine (quick: 64-bit encodings, Alpha and s390x, the sections the
+    // one-pass discovery reads; thorough: every quirk machine, every section, 4 encodings)
+    {
+        let encs: Vec<refmodel::layout::Enc> = if tier == Tier::Quick { vec![refmodel::layout::ENCS[2], refmodel::layout::ENCS[3]] } else { refmodel::layout::ENCS.to_vec() };
+        let machines: Vec<(u16, &str)> = if tier == Tier::Quick { vec![(41, "EM_ALPHA"), (22, "EM_S390")] } else { QUIRK_MACHINES.to_vec() };
+        let common = [".hash", ".gnu.hash", ".dynsym", ".dynstr", ".dynamic", ".symtab", ".strtab"];
+        for e in encs {
+            for sk in rotated_skeletons(e) {
+                if !sk.name.ends_with("no-phdrs") {
+                    continue;
+                }
+                if tier == Tier::Quick && !common.iter().any(|c| sk.name.contains(&format!("last-body={}/", c))) {
+                    continue;
+                }
+                for (m, mname) in &machines {
+                    let mut s2 = sk.clone();
+                    let site = s2.sites.iter().find(|s| s.role == "ehdr.e_machine").unwrap().clone();
+                    refmodel::layout::put(&mut s2.bytes, site.off, site.width, s2.enc.order, *m as u64);
+                    s2.name = format!("{}/{}", s2.name, mname);
+                    spaces.push(Box::new(Prefixes { sk: s2, oracle: PrefixCompare::new(true), label: "C18 slice parser" }));
+                }
+            }
+        }
+    }
     for sk in sample_skeletons() {
         if tier == Tier::Thorough && sk.bytes.len() <= 16 * 1024 || sk.bytes.len() <= 200 {
             spaces.push(Box::new(Prefixes { sk, oracle: PrefixCompare::new(false), label: "C18 slice parser" }));
